@@ -106,6 +106,14 @@ fn fixed_cases() -> Vec<Case> {
     // (the fixable match inside it is dropped) and in the count
     Case { id: "scan-noop-fix".into(), files: vec![("k.js".into(), "keep(foo(1));\nfoo(2);\nkeep(3);\n".into()), ("l.js".into(), "keep(4);\n".into())],
            rules: vec![r1.clone(), r10.clone()], stmt_mode: false },
+    // fixes that widen the edit beyond the matched node (expandStart / expandEnd): what is announced is the widened range
+    Case { id: "scan-expanded-fix".into(), files: vec![("x.js".into(), "const o = { Drop: 1, Keep: 2, Drop2: 3, Last: 4 };
+f([m1, k, m2, \"é\", m3]);
+".into()), ("y.js".into(), "g([m9]);
+".into())],
+           rules: vec![json!({"id": "r11", "language": "JavaScript", "severity": "warning", "message": "m", "rule": {"kind": "pair", "regex": "^Drop"}, "fix": {"template": "", "expandEnd": {"regex": ","}}}),
+                       json!({"id": "r12", "language": "JavaScript", "severity": "warning", "message": "m", "rule": {"kind": "identifier", "regex": "^m", "inside": {"kind": "array"}}, "fix": {"template": "", "expandStart": {"regex": "^,$"}}})],
+           stmt_mode: false },
     Case { id: "scan-no-match".into(), files: vec![("n.js".into(), "keep();\n".into())], rules: vec![r1], stmt_mode: false },
   ]
 }
